@@ -374,6 +374,9 @@ public:
             nev_adj = nev_adjusted(nconv);
             restart(nev_adj, selection);
         }
+        // Refresh the convergence flags so that they describe the current Ritz pairs,
+        // also when the loop above was not entered or ran out of iterations
+        nconv = num_converged(tol);
         // Sorting results
         sort_ritzpair(sorting);
 
